@@ -14,6 +14,20 @@ pub struct Decl {
     pub n: String,
     pub k: String,
     pub public: bool,
+    /// a function with a body (false: a head `fn f() -> i32;`); always true for constants and structures
+    pub body: bool,
+    /// marked `extern`
+    pub ext: bool,
+}
+
+fn decl_from_json(d: &Value) -> Decl {
+    Decl {
+        n: d["n"].as_str().unwrap().to_string(),
+        k: d["k"].as_str().unwrap().to_string(),
+        public: d["pub"].as_bool().unwrap(),
+        body: d.get("body").and_then(|x| x.as_bool()).unwrap_or(true),
+        ext: d.get("ext").and_then(|x| x.as_bool()).unwrap_or(false),
+    }
 }
 
 #[derive(Clone, Debug)]
@@ -61,16 +75,7 @@ pub fn from_case(case: &Value) -> Vec<Module> {
             dir: Vec::new(),
             name: format!("m{}", i + 1),
             imports: imports[i].as_array().unwrap().iter().map(|j| (Vec::new(), format!("m{}", j.as_u64().unwrap()))).collect(),
-            decls: ds
-                .as_array()
-                .unwrap()
-                .iter()
-                .map(|d| Decl {
-                    n: d["n"].as_str().unwrap().to_string(),
-                    k: d["k"].as_str().unwrap().to_string(),
-                    public: d["pub"].as_bool().unwrap(),
-                })
-                .collect(),
+            decls: ds.as_array().unwrap().iter().map(decl_from_json).collect(),
         })
         .collect()
 }
@@ -84,16 +89,7 @@ pub fn from_json(v: &Value) -> Vec<Module> {
             dir: strs(&m["dir"]),
             name: m["name"].as_str().unwrap().to_string(),
             imports: m["imports"].as_array().unwrap().iter().map(|i| (strs(&i["dir"]), i["name"].as_str().unwrap().to_string())).collect(),
-            decls: m["decls"]
-                .as_array()
-                .unwrap()
-                .iter()
-                .map(|d| Decl {
-                    n: d["n"].as_str().unwrap().to_string(),
-                    k: d["k"].as_str().unwrap().to_string(),
-                    public: d["pub"].as_bool().unwrap(),
-                })
-                .collect(),
+            decls: m["decls"].as_array().unwrap().iter().map(decl_from_json).collect(),
         })
         .collect()
 }
@@ -104,7 +100,7 @@ pub fn to_json(mods: &[Module]) -> Value {
         .map(|m| json!({
             "dir": m.dir, "name": m.name, "ipos": m.ipos,
             "imports": m.imports.iter().map(|(d, n)| json!({"dir": d, "name": n})).collect::<Vec<_>>(),
-            "decls": m.decls.iter().map(|d| json!({"n": d.n, "k": d.k, "pub": d.public, "body": true})).collect::<Vec<_>>(),
+            "decls": m.decls.iter().map(|d| json!({"n": d.n, "k": d.k, "pub": d.public, "body": d.body, "ext": d.ext})).collect::<Vec<_>>(),
         }))
         .collect::<Vec<_>>())
 }
@@ -115,10 +111,13 @@ fn value_of(name: &str) -> String {
 }
 
 pub fn decl_line(d: &Decl) -> String {
-    let p = if d.public { "pub " } else { "" };
+    let p = format!("{}{}", if d.public { "pub " } else { "" }, if d.ext { "extern " } else { "" });
     match d.k.as_str() {
+        "fn" if !d.body => format!("{p}fn {}() -> i32;", d.n),
         "fn" => format!("{p}fn {}() -> i32 {{ return: {} }}", d.n, value_of(&d.n)),
         "const" => format!("{p}const {}: i32 = {};", d.n, value_of(&d.n)),
+        // every second structure is a word
+        "struct" if value_of(&d.n).bytes().map(|b| (b - b'0') as usize).sum::<usize>() % 2 == 1 => format!("{p}word32 {} {{ v: i32, }}", d.n),
         "struct" => format!("{p}struct {} {{ v: i32, }}", d.n),
         other => panic!("kind {other}"),
     }
@@ -133,7 +132,13 @@ pub fn probe_line(module: usize, d: &Decl) -> String {
 }
 
 pub fn render(mods: &[Module], with_probes: bool) -> Rendered {
-    let all: Vec<Decl> = mods.iter().flat_map(|m| m.decls.iter().cloned()).collect();
+    // one probe per declared NAME of the program
+    let mut all: Vec<Decl> = Vec::new();
+    for d in mods.iter().flat_map(|m| m.decls.iter()) {
+        if !all.iter().any(|x| x.n == d.n) {
+            all.push(d.clone());
+        }
+    }
     let mut files = Vec::new();
     let mut probe_lines = Vec::new();
     let mut import_lines = Vec::new();
@@ -192,8 +197,9 @@ pub fn observe(mods: &[Module], record: bool) -> (Value, Vec<String>) {
         let decls: Vec<Value> = m
             .decls
             .iter()
-            .filter(|(k, n, _, _)| !(k == "fn" && n.starts_with('p') && n.contains('_')) && k != "poison" && k != "import")
-            .map(|(k, n, p, b)| json!({"n": n, "k": k, "pub": p, "body": b}))
+            .zip(m.ext.iter())
+            .filter(|((k, n, _, _), _)| !(k == "fn" && n.starts_with('p') && n.contains('_')) && k != "poison" && k != "import")
+            .map(|((k, n, p, b), e)| json!({"n": n, "k": k, "pub": p, "body": b, "ext": e}))
             .collect();
         let mut probes: Vec<Value> = r.probe_lines[i].iter().map(|(_, name)| json!({"n": name, "codes": []})).collect();
         let mut other = Vec::new();
@@ -227,11 +233,32 @@ pub fn random(rng: &mut Rng) -> Vec<Module> {
             ipos: 0,
         })
         .collect();
+    // Dimension audit (drawn from a generator of its own, so that the draws below are what they were): a sixth
+    // module and a second sub-directory; the same FILE NAME in different directories; heads and `extern`.
+    let mut extra = Rng::new(rng.next(), 0xC12A_5EED);
+    let n = if extra.chance(25) {
+        mods.push(Module { dir: vec!["e".to_string()], name: format!("m{}", n + 1), imports: Vec::new(), decls: Vec::new(), ipos: 0 });
+        n + 1
+    } else {
+        n
+    };
+    if extra.chance(40) {
+        for i in 1..n {
+            // module i takes the file name of an earlier module that lives in another directory
+            if let Some(j) = (0..i).find(|j| mods[*j].dir != mods[i].dir && !mods.iter().any(|m| m.dir == mods[i].dir && m.name == mods[*j].name)) {
+                if extra.chance(50) {
+                    mods[i].name = mods[j].name.clone();
+                }
+            }
+        }
+    }
     for i in 0..n {
         let nd = rng.range(0, 3);
         for j in 1..=nd {
             let k = kinds[rng.below(3)];
-            mods[i].decls.push(Decl { n: format!("{}{}{}", &k[0..1], i + 1, j), k: k.to_string(), public: rng.chance(55) });
+            let body = k != "fn" || !extra.chance(30);
+            mods[i].decls.push(Decl { n: format!("{}{}{}", if body { &k[0..1] } else { "h" }, i + 1, j), k: k.to_string(), public: rng.chance(55),
+                                      body, ext: extra.chance(25) });
         }
     }
     let density = rng.range(20, 60);
@@ -248,7 +275,23 @@ pub fn random(rng: &mut Rng) -> Vec<Module> {
             } else {
                 (target_dir, mods[j].name.clone())
             };
-            mods[i].imports.push(imp);
+            // A relative spelling that is also the exact path of ANOTHER file is ambiguous (the documentation does not
+            // say which one is meant): write the full path instead.
+            let ambiguous = mods.iter().enumerate().any(|(x, m)| x != j && m.dir == imp.0 && m.name == imp.1);
+            let imp = if ambiguous { (mods[j].dir.clone(), mods[j].name.clone()) } else { imp };
+            // ... and so is a full path that, read relative to the includer's directory, names another file: not written
+            let mut rel_dir = mods[i].dir.clone();
+            rel_dir.extend(imp.0.iter().cloned());
+            let exact = mods.iter().position(|m| m.dir == imp.0 && m.name == imp.1);
+            let rel = mods.iter().position(|m| m.dir == rel_dir && m.name == imp.1);
+            if exact.is_some() && rel.is_some() && exact != rel {
+                continue;
+            }
+            mods[i].imports.push(imp.clone());
+            // the same import written twice
+            if extra.chance(12) {
+                mods[i].imports.push(imp);
+            }
         }
         if rng.chance(4) {
             mods[i].imports.push((Vec::new(), "nowhere".to_string()));
@@ -282,11 +325,11 @@ pub fn project(files: &[(String, String)]) -> Result<Vec<Module>, String> {
                 }
                 Declaration::Poison(_) => return Err(format!("parse error in {path}")),
                 other => {
-                    let (k, n, p, _) = driver::project_decl(other);
+                    let (k, n, p, b) = driver::project_decl(other);
                     if k == "fn" && n.starts_with('p') && n.contains('_') {
                         continue;
                     }
-                    m.decls.push(Decl { n, k, public: p });
+                    m.decls.push(Decl { n, k, public: p, body: b, ext: driver::is_extern(other) });
                 }
             }
         }
